@@ -3,6 +3,8 @@ package participle
 import (
 	"fmt"
 	"strings"
+
+	"github.com/alecthomas/participle/v2/lexer"
 )
 
 // Perform some post-construction validation. This currently does:
@@ -27,31 +29,115 @@ func validate(n node) error {
 	})
 }
 
-func isLeftRecursive(root *strct) (found bool) {
-	defer func() { _ = recover() }()
+// isLeftRecursive reports whether "root" can be re-entered before any token has been consumed.
+func isLeftRecursive(root *strct) bool {
 	seen := map[node]bool{}
-	_ = visit(root.expr, func(n node, next func() error) error {
-		if found {
-			return nil
+	var leftmost func(n node) bool
+	leftmost = func(n node) bool {
+		if n == nil || seen[n] {
+			return false
 		}
+		seen[n] = true
 		switch n := n.(type) {
 		case *strct:
-			if root.typ == n.typ {
-				found = true
+			return n.typ == root.typ || leftmost(n.expr)
+		case *union:
+			for _, member := range n.disjunction.nodes {
+				if leftmost(member) {
+					return true
+				}
 			}
-
+		case *disjunction:
+			for _, child := range n.nodes {
+				if leftmost(child) {
+					return true
+				}
+			}
 		case *sequence:
-			if !n.head {
-				panic("done")
+			// Every element up to and including the first one that must consume input is in a leftmost position.
+			for s := n; s != nil; s = s.next {
+				if leftmost(s.node) {
+					return true
+				}
+				if !canMatchEmpty(s.node, map[node]bool{}) {
+					break
+				}
+			}
+		case *group:
+			return leftmost(n.expr)
+		case *capture:
+			return leftmost(n.node)
+		case *negation:
+			return leftmost(n.node)
+		case *lookaheadGroup:
+			return leftmost(n.expr)
+		}
+		return false
+	}
+	return leftmost(root.expr)
+}
+
+// canMatchEmpty reports whether "n" can match without consuming a token.
+func canMatchEmpty(n node, visiting map[node]bool) bool {
+	switch n := n.(type) {
+	case *strct:
+		if visiting[n] {
+			return false
+		}
+		visiting[n] = true
+		defer delete(visiting, n)
+		return canMatchEmpty(n.expr, visiting)
+	case *union:
+		for _, member := range n.disjunction.nodes {
+			if canMatchEmpty(member, visiting) {
+				return true
 			}
 		}
-		if seen[n] {
+		return false
+	case *disjunction:
+		for _, child := range n.nodes {
+			if canMatchEmpty(child, visiting) {
+				return true
+			}
+		}
+		return false
+	case *sequence:
+		for s := n; s != nil; s = s.next {
+			if !canMatchEmpty(s.node, visiting) {
+				return false
+			}
+		}
+		return true
+	case *group:
+		if n.mode == groupMatchNonEmpty {
+			// A non-empty group needs a value; only the empty literal yields one without consuming input.
+			return canMatchEmpty(n.expr, visiting) && containsEmptyLiteral(n.expr, map[node]bool{})
+		}
+		return n.mode == groupMatchZeroOrOne || n.mode == groupMatchZeroOrMore || canMatchEmpty(n.expr, visiting)
+	case *literal:
+		// The unconstrained empty literal matches any token, including EOF, which is not consumed.
+		return n.s == "" && n.t == lexer.EOF
+	case *capture:
+		return canMatchEmpty(n.node, visiting)
+	case *lookaheadGroup:
+		return true
+	}
+	return false
+}
+
+// containsEmptyLiteral reports whether an unconstrained empty literal occurs below "n".
+func containsEmptyLiteral(n node, seen map[node]bool) (found bool) {
+	_ = visit(n, func(n node, next func() error) error {
+		if l, ok := n.(*literal); ok && l.s == "" && l.t == lexer.EOF {
+			found = true
+		}
+		if found || seen[n] {
 			return nil
 		}
 		seen[n] = true
 		return next()
 	})
-	return
+	return found
 }
 
 func indent(s string) string {
